@@ -834,9 +834,9 @@ def check_views(cls=None):
     # elements of every shape: with text, with blank text, with no text at all (a page / slide / sheet that only carries pictures)
     txt = lambda k: ("", "  \n", f"p{k}")[k % 3]
     mk_el = {"PdfContent": lambda imgs, tabs, k: dt.PdfPage(text=txt(k), images=imgs, tables=tabs),
-             "PptxContent": lambda imgs, tabs, k: dt.PptxSlide(slide_number=k, images=imgs, tables=tabs, base_text=txt(k), text=txt(k)),
+             "PptxContent": lambda imgs, tabs, k: dt.PptxSlide(slide_number=10 + k, images=imgs, tables=tabs, base_text=txt(k), text=txt(k)),
              "XlsxContent": lambda imgs, tabs, k: dt.XlsxSheet(name=("" if k % 3 == 0 else f"S{k}"), text=txt(k), images=imgs, data=(tabs[0] if tabs else [])),
-             "OdpContent": lambda imgs, tabs, k: dt.OdpSlide(slide_number=k, images=imgs, tables=tabs, title=txt(k).strip()),
+             "OdpContent": lambda imgs, tabs, k: dt.OdpSlide(slide_number=10 + k, images=imgs, tables=tabs, title=txt(k).strip()),
              "OdsContent": lambda imgs, tabs, k: dt.OdsSheet(name=("" if k % 3 == 0 else f"S{k}"), text=txt(k), images=imgs, data=(tabs[0] if tabs else []))}
     field = {"PdfContent": "pages", "PptxContent": "slides", "XlsxContent": "sheets", "OdpContent": "slides", "OdsContent": "sheets"}
     for c in ([cls] if cls else list(flat) + ["PptContent"]):
@@ -879,6 +879,14 @@ def check_views(cls=None):
                             "observed": f"{len(flat)} unit images vs {len(doc)} document images"}
                 if len(units) != n:
                     return {"target": f"{c}.iterate_units", "inputs": inputs, "expected": f"{n} units", "observed": f"{len(units)}"}
+                for j, u in enumerate(units):        # the unit reports the stored number of its slide / the 1-based position of its page or sheet
+                    wn = getattr(els[j], "slide_number", j + 1)
+                    try:
+                        gn = u.get_metadata().unit_number
+                    except Exception as ex_:  # noqa
+                        gn = f"raised {type(ex_).__name__}"
+                    if gn != wn:
+                        return {"target": f"{c}.iterate_units", "inputs": inputs, "expected": f"unit {j} reports unit_number {wn}", "observed": repr(gn)}
                 dtabs = [t.get_table() for t in content.iterate_tables()]
                 for u in units:
                     for t in u.get_tables():
@@ -1133,6 +1141,8 @@ def search(ob, wit=None):
         return check_resolver("_resolve_drawing_path")
     if "_odf_length_to_px" in ob:
         return check_odf_length()
+    if "::_get_content_type/" in ob or "::guess_content_type/" in ob:
+        return check_ct_helper(ob.split("::")[1].split("/")[0])
     if "/rel-type#" in ob:
         return other_kinds_sweep(fmt)
     if "lookup-table-scope" in ob or "relationship-table-of-the-given-part" in ob or "relationships-of-the-slide-being-processed" in ob:
@@ -1209,9 +1219,149 @@ def search(ob, wit=None):
                 if r:
                     break
         return r
+    if "data_types.py::ImageMetadata." in ob:
+        return check_metadata_mirror()
+    if "data_types.py" in ob and any(f".{m}/" in ob for m in ("get_metadata", "get_content_type", "get_bytes")):
+        q = ob.split("::")[1].split("/")[0]
+        return check_accessors(q.split(".")[0], q.split(".")[1])
     if "data_types.py" in ob:
         cls = ob.split("::")[1].split(".")[0] if "::" in ob else None
         return check_views(cls if cls and cls.endswith("Content") else None)
+    return None
+
+
+def check_accessors(cls, meth=None):
+    """Observation accessors of an image class (contracts/c14_access.py) on a grid of stored field values: what `get_metadata()` (attribute
+    AND dict view), `get_content_type()` and `get_bytes().read()` (twice, and for a stored stream that was left at its end) report is what
+    was stored.  Also the native validation of the assumed `ImageMetadata.__post_init__` mirror and of the io.BytesIO / str.strip models."""
+    import dataclasses
+    import io as _io
+    import itertools
+    dt = _imp("sharepoint2text.parsing.extractors.data_types")
+    C = getattr(dt, cls, None)
+    if C is None:
+        return None
+    spec = {"DocxImage": ("image_index", None), "PptxImage": ("image_index", "slide_number"), "XlsxImage": ("image_index", ("sheet_index", 1)),
+            "OpenDocumentImage": ("image_index", "unit_name"), "EpubImage": ("image_index", "unit_index"), "PdfImage": ("index", "unit_name"), "RtfImage": ("image_index", "page_number"),
+            "DocImage": ("image_number", "unit_number"), "PptImage": ("image_index", ("slide_number", 0)), "XlsImage": ("image_index", None)}.get(cls)
+    if spec is None:
+        return None
+    num, unit = spec
+    flds = {f.name: str(f.type) for f in dataclasses.fields(C)}
+    ctf = "content_type" if "content_type" in flds else "image_type"      # RtfImage stores the picture kind; its sizes are twips (no clause)
+    kinds = {"png": "image/png", "jpeg": "image/jpeg", "jpg": "image/jpeg", "PNG": "image/png", "Jpeg": "image/jpeg"}
+    if num not in flds or ctf not in flds:
+        return None
+    pay = [n for n, t in flds.items() if "BytesIO" in t or ("bytes" in t and n != "size_bytes")]
+    pay = pay[0] if len(pay) == 1 else None
+    ufield = unit[0] if isinstance(unit, tuple) else unit
+    opt = lambda n: "Optional" in flds.get(n, "") or "None" in flds.get(n, "")     # noqa: E731
+    odf = "str" in flds.get("width", "")
+    sizes = (["1in", None, "0cm", "abc", "2.54cm", "131px"] if odf else ([None] if opt("width") else []) + [0, -1, 5, 131])
+    units = [None] if ufield is None else (([None] if opt(ufield) else []) + [0, 1, 3])
+    px = getattr(dt, "_odf_length_to_px", None)
+
+    def fail(target, inputs, expected, observed):
+        return {"target": f"{cls}.{target}", "aspect": "accessors", "inputs": {k: repr(v) for k, v in inputs.items()}, "expected": expected, "observed": observed}
+
+    def want_size(v):
+        if odf:
+            v = px(v) if px else None
+        return v if isinstance(v, int) and v > 0 else None
+    def ct_ok(got, ct):
+        return got == kinds[ct] if ctf == "image_type" else got in (ct, ct.strip())
+    for n, u, w, h, ct in itertools.product((1, 7), units, sizes, sizes[::-1], ("image/png", " image/jpeg ") if ctf == "content_type" else tuple(kinds)):
+        kw = {num: n, ctf: ct, "width": w, "height": h}
+        if ufield is not None:
+            kw[ufield] = u
+        kw = {k: v for k, v in kw.items() if k in flds}
+        if meth in (None, "get_metadata"):
+            md = C(**kw).get_metadata()
+            uw = [None, u + unit[1] if u is not None else None] if isinstance(unit, tuple) else [u]
+            for key, ok, exp in (("image_number", md.image_number == n, n), ("content_type", ct_ok(md.content_type, ct), ct),
+                                 ("unit_number", md.unit_number in uw, uw), ("width", ctf == "image_type" or md.width == want_size(w), want_size(w)),
+                                 ("height", ctf == "image_type" or md.height == want_size(h), want_size(h))):
+                if not ok:
+                    return fail("get_metadata()", kw, f"{key} == {exp!r}", f"{key} == {getattr(md, key)!r}")
+                if dict(md).get(key, "<absent>") != getattr(md, key):
+                    return fail("get_metadata()", kw, f"dict view [{key!r}] == attribute {getattr(md, key)!r}", repr(dict(md).get(key, "<absent>")))
+        if meth in (None, "get_content_type"):
+            got = C(**kw).get_content_type()
+            if not ct_ok(got, ct):
+                return fail("get_content_type()", kw, repr(kinds[ct] if ctf == "image_type" else ct), repr(got))
+    if meth in (None, "get_bytes") and pay is not None:
+        stream = "BytesIO" in flds[pay]
+        for data in ([None] if opt(pay) else []) + [b"", b"\x89PNG\r\n\x1a\n" + bytes(range(256))]:
+            for pre in ((0, 5, None) if stream and data else (0,)):
+                val = data
+                if stream and data is not None:
+                    val = _io.BytesIO(data)
+                    val.seek(len(data) if pre is None else min(pre, len(data)))
+                img = C(**{num: 1, pay: val, **({ctf: "image/png"} if ctf == "content_type" else {})})
+                for call in (1, 2):
+                    got = img.get_bytes().read()
+                    if got != (data or b""):
+                        return fail("get_bytes().read()", {pay: data, "stored stream position": pre, "call": call}, f"{len(data or b'')} stored bytes",
+                                    f"{len(got)} bytes" + ("" if len(got) != len(data or b"") else " (different content)"))
+    return None
+
+
+def check_ct_helper(which):
+    """Content-type helpers of the library (contracts/c14_access.py::run_helpers) on part names with every raster extension of the property in
+    lower / UPPER / Mixed case, several dots and dotted directories: xlsx `_get_content_type`, ODF `guess_content_type` (also the native
+    validation of the assumed mimetypes table: it knows the raster extensions case-insensitively)."""
+    import mimetypes
+    if which == "_get_content_type":
+        f = getattr(_imp("sharepoint2text.parsing.extractors.ms_modern.xlsx_extractor"), which, None)
+    else:
+        f = getattr(_imp("sharepoint2text.parsing.extractors.open_office._shared"), which, None)
+    if f is None:
+        return None
+    table = {"png": "image/png", "jpg": "image/jpeg", "jpeg": "image/jpeg", "gif": "image/gif", "bmp": "image/bmp"}
+    for ext, want in table.items():
+        for spell in (ext, ext.upper(), ext.capitalize()):
+            for stem in ("image1", "xl/media/image1", "media.v2/pic", "a.b", "Pictures/10000000.0001", "../media/i", ".hidden"):
+                name = f"{stem}.{spell}"
+                try:
+                    got = f(name)
+                except Exception as e:  # noqa
+                    got = f"raised {type(e).__name__}: {e}"
+                if got != want:
+                    return {"target": f"{which}({name!r})", "aspect": "content-type", "inputs": {"name": name}, "expected": want, "observed": repr(got)}
+    if which == "guess_content_type":
+        for name in ("Pictures/noextension", "Pictures/x.unknownext", "", "a.", "ObjectReplacements/Object 1"):
+            want = mimetypes.guess_type(name)[0] or "application/octet-stream"
+            try:
+                got = f(name)
+            except Exception as e:  # noqa
+                got = f"raised {type(e).__name__}: {e}"
+            if got != want:
+                return {"target": f"{which}({name!r})", "aspect": "content-type", "inputs": {"name": name}, "expected": want, "observed": repr(got)}
+    return None
+
+
+def check_metadata_mirror():
+    """ImageMetadata: the dict view (the statement's observation `dict(i.get_metadata())`) equals the attribute view, after construction
+    (keyword / positional / defaults) and after attribute assignment."""
+    import itertools
+    dt = _imp("sharepoint2text.parsing.extractors.data_types")
+    M = getattr(dt, "ImageMetadata", None)
+    if M is None:
+        return None
+    keys = ("unit_number", "image_number", "content_type", "width", "height")
+    for u, n, ct, w, h in itertools.product((None, 3), (0, 7), ("", "image/png"), (None, 131), (None, 184)):
+        want = dict(zip(keys, (u, n, ct, w, h)))
+        mds = [("keywords", M(**want)), ("positional", M(u, n, ct, w, h))]
+        late = M()
+        for k, v in want.items():
+            setattr(late, k, v)
+        mds.append(("attribute assignment", late))
+        for how, md in mds:
+            got = dict(md)
+            attrs = {k: getattr(md, k, "<absent>") for k in keys}
+            if got != want or attrs != want:
+                return {"target": f"ImageMetadata ({how})", "aspect": "accessors", "inputs": {k: repr(v) for k, v in want.items()},
+                        "expected": f"dict view == attribute view == {want}", "observed": f"dict {got}, attributes {attrs}"}
     return None
 
 
@@ -1239,6 +1389,10 @@ def check_odf_length():
                     if not isinstance(got, int) or abs(got - want) > Fr(1, 2) + want / 10**9:
                         return {"target": how, "aspect": "pixel-size", "inputs": {"length": s}, "expected": f"{float(want):.3f} px rounded ({unit}: {float(k):.4f} px per unit at 96 dpi)",
                                 "observed": repr(got)}
+    for s in (None, "", " ", "cm", "abc"):       # nothing stored / no numeral: no length
+        got = f(s) if f else None
+        if got is not None:
+            return {"target": f"_odf_length_to_px({s!r})", "aspect": "pixel-size", "inputs": {"length": repr(s)}, "expected": "None (no length)", "observed": repr(got)}
     for s in ("3em", "50%", "2ex", "1furlong"):
         got = via_metadata(s)[0]
         if got is not None:
